@@ -88,9 +88,9 @@ package webp
 //@   callsite NewEncoderFromYUV: assert cfg.FilterType == optDefault(opts.FilterType, 1) && cfg.FilterSharpness == opts.FilterSharpness && cfg.Partitions == opts.Partitions
 //@   callsite NewEncoderFromYUV: assert cfg.Segments == optDefault0(opts.Segments, 4) && cfg.Pass == optDefault0(opts.Pass, 1)
 //@   callsite NewEncoderFromYUV: assert cfg.QMin == opts.QMin && cfg.QMax == optDefault(opts.QMax, 100) && cfg.Method == opts.Method
-//@   callsite EncodeAlpha: assert cfg.Quality == optDefault(opts.AlphaQuality, 100) && cfg.EffortLevel == opts.Method
-//@   callsite EncodeAlpha: assert (cfg.Method == 0 <==> optDefault(opts.AlphaCompression, 1) == 0)
-//@   callsite EncodeAlpha: assert (optDefault(opts.AlphaFiltering, 1) == 0 ==> cfg.Filter == 0) && (optDefault(opts.AlphaFiltering, 1) == 2 ==> cfg.Filter == lossy.AlphaFilterModeBest) && (optDefault(opts.AlphaFiltering, 1) == 1 ==> cfg.Filter == lossy.AlphaFilterModeFast)
+//@   callsite EncodeAlpha: assert arg3.Quality == optDefault(opts.AlphaQuality, 100) && arg3.EffortLevel == opts.Method
+//@   callsite EncodeAlpha: assert (arg3.Method == 0 <==> optDefault(opts.AlphaCompression, 1) == 0)
+//@   callsite EncodeAlpha: assert (optDefault(opts.AlphaFiltering, 1) == 0 ==> arg3.Filter == 0) && (optDefault(opts.AlphaFiltering, 1) == 2 ==> arg3.Filter == lossy.AlphaFilterModeBest) && (optDefault(opts.AlphaFiltering, 1) == 1 ==> arg3.Filter == lossy.AlphaFilterModeFast)
 //
 // C15 / C20: the lossless paths receive the caller's options unchanged
 // (Exact, Quality, Method are the only fields they read), whether or not
